@@ -142,10 +142,11 @@ SEGMENTS = {
         rewrites=[(r"\.write\(\)\.await", ".kwrite()")],
     ),
     "M0": dict(
-        file="src/dev/write.rs", fn="__make_multiple_write_mapping", start="FULL",
+        file="src/dev/write.rs", fn="__make_multiple_write_mapping", start="FULL", parent="src/dev/write.rs",
         sig="pub(crate) fn seg_m0(&self, start: u64, end: u64, l2_entries: &mut KVec<L2Entry>) -> Qcow2Result<usize>",
         await_calls=["ensure_l2_offset", "get_l2_slice", "allocate_clusters", "allocate_cluster", "mark_new_cluster"],
-        rewrites=[(r"\.write\(\)\.await", ".kwrite()")],
+        rewrites=[(r"\.write\(\)\.await", ".kwrite()"),
+                  (r"\bSelf::need_make_mapping\(", "Qcow2Dev::<super::verif_write::KIo>::need_make_mapping(", 2)],
     ),
     # ---- batch L2 lookup of the multi-cluster read path
     "GE": dict(
@@ -179,5 +180,36 @@ SEGMENTS = {
         sig="pub(crate) fn seg_s0<B: Table + std::fmt::Debug, E: TableEntry>(&self, cache: &KSlot<B>, top_e: &E, key: usize, slice_off: usize, slice: B) -> Qcow2Result<Option<()>>",
         await_calls=["cluster_is_new", "call_read"],
         rewrites=[(r"AsyncRwLock::new\(slice\)", "KLock::new(slice)"), (r"\.write\(\)\.await", ".kwrite()")],
+    ),
+    # ---- hole punch with zero-write fallback
+    "F0": dict(
+        file="src/dev/cache.rs", fn="call_fallocate", start="FULL",
+        sig="pub(crate) fn seg_f0(&self, offset: u64, len: usize, flags: u32) -> Qcow2Result<()>",
+        await_calls=["call_write"],
+        rewrites=[(r"self\.file\.fallocate\(offset, len, flags\)\.await", "self.k_file_fallocate(offset, len, flags)"),
+                  (r"self\.k_call_write\(", "self.k_call_write_q(")],
+        forbid=[],
+    ),
+    # ---- creation of a new refcount block (tail of ensure_refblock_offset)
+    "E0": dict(
+        file="src/dev/alloc.rs", fn="ensure_refblock_offset", start=r"let refblock_offset = \(rt_index as u64\)", end="END",
+        sig="pub(crate) fn seg_e0(&self, reftable: &mut RefTable, cls: &HostCluster, rt_index: usize) -> Qcow2Result<RefTableEntry>",
+        pre="        let info = &self.info;",
+        await_calls=["mark_new_cluster", "add_rb_slice"],
+    ),
+    # ---- copy-on-write merges
+    "B0": dict(
+        parts=[
+            dict(fn="do_compressed_cow",
+                 sig="pub(crate) fn seg_b0c(&self, off_in_cls: usize, buf: &[u8], host_off: u64, compressed_mapping: &Mapping) -> Qcow2Result<()>",
+                 await_calls=["do_read_compressed", "call_write"]),
+            dict(fn="do_back_cow",
+                 sig="pub(crate) fn seg_b0b(&self, virt_off: u64, off_in_cls: usize, buf: &[u8], host_off: u64) -> Qcow2Result<()>",
+                 await_calls=["call_write"],
+                 rewrites=[(r"backing\s*\.read_at\(&mut cbuf, (.*?)\)\s*\.await\?", r"self.k_backing_read(&mut cbuf, \1)?"),
+                           (r"self\.k_call_write\(", "self.k_call_write_q(")]),
+        ],
+        file="src/dev/write.rs", start="FULL",
+        rewrites=[(r"self\.k_call_write\(", "self.k_call_write_q(")],
     ),
 }
